@@ -22,7 +22,7 @@ CARGO_NET_OFFLINE=true CARGO_TARGET_DIR=$LAB/target MIRIFLAGS="-Zmiri-disable-is
 rc=$?
 end=$(date +%s)
 ub=$(grep -c "Undefined Behavior" /verif/out/miri.stderr)
-line=$(grep -E "^$PROP quick" /verif/out/miri.stdout | head -1)
+line=$(grep -E "^$PROP quick" /verif/out/miri.stdout | head -1 | tr -d '"')
 echo "{\"tool\": \"miri ($(cargo +nightly miri --version 2>/dev/null | head -1))\", \"exit\": $rc, \"undefined_behavior_reports\": ${ub:-0}, \"wall_s\": $((end-start)), \"workload\": \"$line\"}" > /verif/miri/miri.last.json
 cat /verif/miri/miri.last.json
 if [ "${ub:-0}" != "0" ]; then echo "INCONCLUSIVE: Miri reported undefined behaviour; see /verif/out/miri.stderr"; exit 2; fi
